@@ -390,8 +390,9 @@ Proof.
     + inversion H; subst. apply Jstep_nil; [exact HJ|apply keeps_refl].
     + destruct (value_by_tag d tag_MsgSeqNum) as [sb| | |]; try (inversion H; subst; apply Jstep_nil; [exact HJ|apply keeps_refl]).
       destruct (atoi sb) as [q|]; try (inversion H; subst; apply Jstep_nil; [exact HJ|apply keeps_refl]).
-      destruct (value_by_tag d tag_MsgType); inversion H; subst; apply Jstep_nil; try exact HJ;
-        [apply keeps_upd_cnt_in|apply keeps_refl|apply keeps_refl|apply keeps_refl].
+      destruct (value_by_tag d tag_MsgType) as [mt| | |]; try (inversion H; subst; apply Jstep_nil; [exact HJ|apply keeps_refl]).
+      destruct (c_seqreset cfg && beq mt msgtype_SequenceReset); inversion H; subst; apply Jstep_nil; try exact HJ;
+        [apply keeps_refl|apply keeps_upd_cnt_in].
   - (* HResend *)
     destruct (parse_as msgtype_ResendRequest tpl_ResendRequest d) as [rm| | |]; try (J_reject HJ H).
     destruct (negb (is_logged s)); [J_reject HJ H|].
@@ -593,7 +594,7 @@ Qed.
 
 (* ---- non-vacuity: a concrete history (three application sends, a registration, a logout) ---- *)
 Definition ex5_cfg : config :=
-  {| c_side := Acceptor; c_allowed := [[48%N]]; c_approve := fun _ => true; c_fail_saves := [];
+  {| c_side := Acceptor; c_allowed := [[48%N]]; c_approve := fun _ => true; c_fail_saves := []; c_seqreset := true;
      c_settings := {| st_target := [67%N]; st_sender := [83%N]; st_hb := 30; st_enc := [48%N];
                       st_password := []; st_username := []; st_reset := false; st_limits := None |} |}.
 
